@@ -331,6 +331,18 @@ def build_file_inputs(desc):
             "packs": packs, "den": 64}
 
 
+def vertical_setup(desc):
+    """vertical coordinate of the files: the default (Vtransform 1, hc = 0) or Vtransform 2 with a critical depth
+    above the shallowest cells (legal there: h_c enters as (hc*s + h*C)/(hc + h))"""
+    k = desc["seed"] % 3
+    if k == 0 or desc.get("exact"):  # the exact stream keeps dyadic level depths (float arithmetic exact)
+        return {}
+    # a genuinely stretched coordinate (with C(s) = s the levels do not depend on hc at all)
+    N = desc["N"]
+    sr, sw = (np.arange(N) + 0.5) / N - 1.0, np.arange(N + 1) / N - 1.0
+    return {"Vtransform": 2, "hc": [0.0, 20.0, 150.0][k], "Cs_r": -(sr ** 2), "Cs_w": -(sw ** 2)}
+
+
 def write_files(d, desc, inp):
     from netCDF4 import Dataset
 
@@ -350,7 +362,7 @@ def write_files(d, desc, inp):
         rf.write_roms(p, imax=imax0, jmax=jmax0, N=N, times=[dt * t for t in frs], h=inp["h"], mask=inp["mask"],
                       u=inp["SU"][frs] * unit["u"], v=inp["SV"][frs] * unit["v"], extra={"temp": inp["ST"][frs] * unit["temp"]},
                       dtype=("f8" if st == "i2" else st), packed=packed,
-                      dx=1000.0)
+                      dx=1000.0, **vertical_setup(desc))
         if pk is not None:
             with Dataset(p, "a") as nc:  # stored integers exactly as generated; scalar offset
                 nc.set_auto_maskandscale(False)
@@ -486,6 +498,15 @@ def eval_file(desc, ctx):
             Kc, Ac = np.array(force.K), np.array(force.A, dtype=float)
             zr = np.array(grid.z_r)
             g = (grid.i0, grid.i1, grid.j0, grid.j1)
+            # the level depths the file's vertical set-up denotes in the loaded window (ladim.ROMS.sdepth: C12)
+            from ladim.ROMS import sdepth as _sdepth
+            from netCDF4 import Dataset as _DS
+            with _DS(names[0]) as _nc:
+                _hc = float(_nc.variables["hc"].getValue()); _cs = np.array(_nc.variables["Cs_r"][:], dtype=float)
+                _vt = int(_nc.variables["Vtransform"].getValue()) if "Vtransform" in _nc.variables else 1
+            zr_file = _sdepth(np.asarray(inp["h"], dtype=float)[g[2]:g[3], g[0]:g[1]], _hc, _cs, stagger="rho", Vtransform=_vt)
+            if zr.shape != zr_file.shape or not np.allclose(zr, zr_file, rtol=1e-12, atol=1e-9):
+                problems.append(f"level depths of the loaded window differ from those the file's vertical set-up (hc={_hc}, Vtransform={_vt}) gives: subgrid={spec}")
         finally:
             try:
                 force.close()
